@@ -21,21 +21,27 @@ def run(ck, prog):
         "didOpen and didChange reach Server::set_file_content with the notification's own uri and text on every "
         "path (a didChange without content changes is the one allowed skip), which unconditionally stores the "
         "text in the database under the document's file id and records it in the open-document table; "
-        "AnalysisHost::set_file_content writes the input unconditionally. Not decided: the session model (what "
+        "AnalysisHost::set_file_content writes the input unconditionally; (R12.3) in Server::set_file_content the "
+        "call that records the text in the open-document table dominates every call from which a "
+        "FileSystem::read_content implementation is reachable (the include walk). Not decided: the session model (what "
         "the root is, what 'open' means after didClose).")
     ck.trusted = ["salsa inputs keep the last value written"]
     ck.rule("R12.1", "disk text never shadows an open document: read_content consults the open-document table first")
     ck.rule("R12.2", "didOpen/didChange always store the editor's text")
+    ck.rule("R12.3", "the open-document table holds the new text before files are re-read")
     cg = callgraph(prog)
 
     # ---- R12.1 -------------------------------------------------------------------
     impls = [i for i in prog.impls if i.get("trait") == "ide::file_system::FileSystem" and i["crate"] == "lsp.rlib"]
     ck.anchor(impls, "no FileSystem impl in crate lsp")
     writers_reach = cg.reachable([SERVER_SET])
+    overlay_writers = set()
+    read_impls = set()
     for imp in impls:
         rc = [it["path"] for it in imp["items"] if it["name"] == "read_content"]
         ck.anchor(rc, "read_content not found in the FileSystem impl of %s" % imp["self"])
         b = prog.body(rc[0])
+        read_impls.add(rc[0])
         disk = {i for i, t in b.calls() if DISK.search(Body.callee(t) or "")}
         if not disk:
             ck.ob("R12.1", "overlay:%s" % imp["self"], True, "read_content of %s never touches the disk" % imp["self"])
@@ -59,6 +65,7 @@ def run(ck, prog):
                 on_path = [w for w in wr if w in writers_reach]
                 if on_path:
                     ok = True
+                    overlay_writers.update(on_path)
                     why = "disk is read only when `%s` has no entry for the path; `%s` is filled by %s (reached from Server::set_file_content)" % (field, field, on_path[0])
                 else:
                     why = "the table `%s` consulted before the disk read is never written on the didOpen/didChange path" % field
@@ -128,6 +135,35 @@ def run(ck, prog):
         ck.ob("R12.2", "server-file", all(x[0] == "call" and x[1].endswith("assign_or_get_file_id") for x in fo),
               "the file id is the one assigned to the document's path",
               msg="Server::set_file_content stores the text under an id not derived from the document's path")
+    # ---- R12.3: the editor's text is in the open-document table before anything re-reads files -----------------
+    # (re-collecting the sources calls FileSystem::read_content for every include it meets and writes the result into
+    # the database: if the walk meets the touched document again, the table must already hold the text just sent)
+    dom = cfg.dominators(sb)
+    stores = []
+    for i, t in sb.calls():
+        c = Body.callee(t) or ""
+        if c in overlay_writers or any(w in cg.reachable([c]) for w in overlay_writers if not c.startswith("std::")):
+            to = set()
+            for a in t["args"][1:]:
+                to |= {x for x in prov.origins(sb, a) if x[0] == "arg" and x[1] == 3}
+            if to:
+                stores.append(i)
+    nread = 0
+    for i, t in sb.calls():
+        c = Body.callee(t) or ""
+        if c.startswith(("std::", "<std::", "core::", "alloc::")) or i in stores:
+            continue
+        if not (read_impls & set(cg.reachable([c]))):
+            continue
+        nread += 1
+        ok = any(s_ in dom[i] for s_ in stores)
+        ck.ob("R12.3", "overlay-before:%s#%d" % (c.rsplit("::", 1)[-1], nread), ok,
+              "the text is recorded in the open-document table before %s re-reads files" % c.rsplit("::", 1)[-1],
+              msg="Server::set_file_content calls %s (which re-reads files through FileSystem::read_content and stores "
+                  "what it reads) before the text the editor just sent is recorded in the open-document table [%s]: a "
+                  "document reached again through an include gets its on-disk or previous text back" % (c, sb.where(i)))
+    ck.floor("R12.3", "calls of Server::set_file_content that re-read files", nread, 1)
+
     hb = prog.body(HOST_SET)
     ck.anchor(hb is not None, "AnalysisHost::set_file_content not found")
     ws = {i for i, t in hb.calls() if (Body.callee(t) or "").endswith("SourceDatabase>::set_file_content")}
